@@ -19,7 +19,7 @@ import base64
 import os
 import sys
 import argparse
-from ...encoding import Name
+from ...encoding import Name, DecodeError
 from ...app_support.security_v2 import parse_certificate
 from .utils import resolve_keychain
 
@@ -42,7 +42,7 @@ def execute(args: argparse.Namespace):
     try:
         cert_data = base64.standard_b64decode(text)
         cert = parse_certificate(cert_data)
-    except (ValueError, IndexError):
+    except (ValueError, IndexError, DecodeError):
         print('Malformed certificate')
         return -1
 
